@@ -240,8 +240,11 @@ func c16Repair(maxN int) c16Case {
 			cfgs = append(cfgs, cfg{n, u})
 		}
 	}
-	return c16Case{name: "node-repair", n: enum.Size(len(cfgs), len(offsets)), run: func(i int64, run *explore.Run, l *ev.Local) {
-		d := enum.Odo(i, len(cfgs), len(offsets))
+	// othersRecent: the OTHER unhealthy nodes turned unhealthy only 10 minutes ago (still inside their own toleration):
+	// they are unhealthy all the same and count towards the 20% circuit breaker
+	return c16Case{name: "node-repair", n: enum.Size(len(cfgs), len(offsets), 2), run: func(i int64, run *explore.Run, l *ev.Local) {
+		d := enum.Odo(i, len(cfgs), len(offsets), 2)
+		othersRecent := d[2] == 1
 		c := cfgs[d[0]]
 		w := world.New(world.Options{NodeRepair: true})
 		w.CP.Catalog[""] = world.BuildCatalog(K1)
@@ -253,7 +256,11 @@ func c16Repair(maxN int) c16Case {
 		for k := 0; k < c.n; k++ {
 			nc, node := w.BuildNode(world.NodeSpec{Name: fmt.Sprintf("n%d", k), Pool: "default", Type: K1[0], Offer: K1[0].Offers[0]})
 			if k < c.u {
-				node.Status.Conditions = append(node.Status.Conditions, corev1.NodeCondition{Type: "BadNode", Status: corev1.ConditionFalse, LastTransitionTime: metaT(since)})
+				at := since
+				if k > 0 && othersRecent {
+					at = world.Epoch.Add(-10 * time.Minute)
+				}
+				node.Status.Conditions = append(node.Status.Conditions, corev1.NodeCondition{Type: "BadNode", Status: corev1.ConditionFalse, LastTransitionTime: metaT(at)})
 				w.EnvUpdate(node)
 			}
 			if k == 0 {
@@ -268,7 +275,7 @@ func c16Repair(maxN int) c16Case {
 		att, _ := deletesOf(w, "NodeClaim", targetNC.Name)
 		threshold := (c.n + 4) / 5 // ceil(0.2 n)
 		lasted := offsets[d[1]] >= 0
-		desc := fmt.Sprintf("repair: %d of %d nodes unhealthy for 30m%+v (allowed %d) faults=%v", c.u, c.n, offsets[d[1]], threshold, *taken)
+		desc := fmt.Sprintf("repair: %d of %d nodes unhealthy, the reconciled one for 30m%+v, the others %s (allowed %d) faults=%v", c.u, c.n, offsets[d[1]], map[bool]string{false: "equally long", true: "for 10m only"}[othersRecent], threshold, *taken)
 		if att > 0 && !lasted {
 			l.Violation("repair: deleted before the toleration elapsed", desc, map[string]any{"calls": callStrings(w)})
 		}
@@ -376,12 +383,12 @@ func c16RepairTwoPolicies() c16Case {
 
 func init() {
 	register("C16", "fault_enumeration", func(r *ev.Rec) {
-		bound, maxN := 1, 6
+		bound, maxN := 2, 10
 		if r.Tier == "thorough" {
-			bound, maxN = 2, 10
+			bound, maxN = 3, 10
 		}
 		cases := []c16Case{c16Expiration(), c16GC(), c16Liveness(), c16Repair(maxN), c16RepairTwoPolicies()}
-		r.Rule = fmt.Sprintf("four drivers (expiration, garbage collection, liveness via the lifecycle controller, node repair) over full state x clock-offset products (offsets -1s/0/+1s around each threshold; repair pools of 1..%d nodes with every unhealthy count; a provider with two repair policies of different tolerations and a node matching none / one / both, each condition absent / healthy / unhealthy for its own toleration -5m/-1s/0/+1s); "+
+		r.Rule = fmt.Sprintf("four drivers (expiration, garbage collection, liveness via the lifecycle controller, node repair) over full state x clock-offset products (offsets -1s/0/+1s around each threshold; repair pools of 1..%d nodes with every unhealthy count, the other unhealthy nodes unhealthy equally long or only recently; a provider with two repair policies of different tolerations and a node matching none / one / both, each condition absent / healthy / unhealthy for its own toleration -5m/-1s/0/+1s); "+
 			"each state is reconciled once fault-free and once for every way of failing <=%d of its API / provider calls (transient 500, conflict on optimistic-lock patches, provider error). A Delete of the NodeClaim must be justified by the documented trigger computed from the scenario parameters. "+
 			"non-trivial = distinct (state, fault set) with a delete or an injected fault", maxN, bound)
 		r.Assumptions = []string{"duplicate Nodes for one NodeClaim are enumerated but a delete there is not judged (the code documents it as an invalid state)", "garbage collection is driven with one NodeClaim so that its client-go fan-out has a single worker"}
